@@ -16,6 +16,7 @@ EXPLANATION_ADDED = '(R5) advertised window = inbound queue capacity (=C03.R3/R4
 EXPLANATION_ADDED2 = ' (R8) the whole C03 rule set as a precondition of loss-free delivery; (R9) the C09 rules on Push frames. (R11) at teardown the source is dispatched before the flow table is drained and a dispatch error does not end that loop (= C05.R5).'
 EXPLANATION = EXPLANATION + " Added while testing against seeded changes: " + EXPLANATION_ADDED + EXPLANATION_ADDED2
 EXPLANATION = EXPLANATION + ' Rounds 12-13: (R11) at teardown the source is dispatched before the flow table is drained and one undispatchable message does not end that loop (= C05.R5).'
+EXPLANATION = EXPLANATION + " Rounds 14-15: (R12) only the stream handle's Drop reports its id on the dropped-flows queue, conditionally or not (= C06.R7); R4 also pairs, path-wise, every slice counted by a vectored write with a slice put into the frame; (S8) the WebSocket adapters hand over every message; (S9) the Push constructors are exact."
 ASSUMPTIONS = ["tokio channels are FIFO; the WebSocket sink preserves message order"]
 NOT_DECIDED = "that no interleaving corrupts or duplicates bytes (follows from R1-R4 + FIFO, not re-proved)"
 THOROUGH_CONFIGS = ["mux-nodefault", "mux-std-only", "mux-yawc"]
